@@ -82,6 +82,9 @@ var connScripts = map[string]struct {
 	"block":     {[]string{"{\"method\":\"t.a.B\"}\x00"}, "half"},
 	"idleclose": {nil, "close"},
 	"callhold":  {[]string{"{\"method\":\"t.a.R\"}\x00"}, "hold"},
+	// the same, but it connects only after every earlier connection has been handled to the end (the service has
+	// been idle in between)
+	"latehold": {[]string{"{\"method\":\"t.a.R\"}\x00"}, "hold"},
 	"two":       {[]string{"{\"method\":\"t.a.R\"}\x00{\"method\":\"org.varlink.service.GetInfo\"}\x00"}, "half"},
 	// introspection only: these calls never pass through the dispatch-table lookup, so nothing but their own
 	// locking orders them with a registration
@@ -250,6 +253,19 @@ func lcBody(d lcDesc) func() {
 					// the second Shutdown of a two-round scenario is aimed at round 1
 					vsched.Yield("wait-round1", "S", func() bool { return isBound(1) })
 				}
+				if k == 0 {
+					// with a client that holds its connection open: the first Shutdown comes once that client has its
+					// reply (Shutdown while a connection is open), not at some earlier point that few delays reach
+					for i, cs := range d.Conns {
+						if strings.HasSuffix(cs, "hold") {
+							name := fmt.Sprintf("c%d", i)
+							vsched.Yield("wait-held-client-served", "S", func() bool {
+								c, ok := w.Clients[name]
+								return ok && strings.Contains(string(c.Received()), "\x00")
+							})
+						}
+					}
+				}
 				stamp()
 				r := curRound()
 				st.shutRound[k] = r
@@ -272,6 +288,17 @@ func lcBody(d lcDesc) func() {
 				if d.Via == "listen" {
 					// a client cannot reach an address before the service has bound it
 					vsched.Yield("wait-bound", name, func() bool { return st.hooked[0] })
+				}
+				if cs == "latehold" {
+					vsched.Yield("wait-earlier-connections-handled", name, func() bool {
+						ended := 0
+						for _, e := range w.Events {
+							if strings.HasPrefix(e, "client-end ") {
+								ended++
+							}
+						}
+						return ended >= i && len(st.Ls[0].Accepted) >= i && vsched.AliveNamed("service.go:") == 0 && st.Ls[0].Queued() == 0
+					})
 				}
 				w.rawClientOn(st.Ls[0], name, sc.chunks, sc.end)
 			})
@@ -576,7 +603,7 @@ func scenariosC14(tier string) []Scen {
 	var connSets [][]string
 	connSets = append(connSets, nil)
 	// a connection that stays open until a Shutdown has returned, alone and behind one that has already ended
-	connSets = append(connSets, []string{"callhold"}, []string{"call", "callhold"}, []string{"idleclose", "callhold"}, []string{"herr", "callhold"})
+	connSets = append(connSets, []string{"callhold"}, []string{"call", "callhold"}, []string{"idleclose", "callhold"}, []string{"herr", "callhold"}, []string{"call", "latehold"}, []string{"idleclose", "latehold"}, []string{"herr", "latehold"})
 	for _, a := range kinds {
 		connSets = append(connSets, []string{a})
 	}
